@@ -20,11 +20,16 @@ LEADERLESS_LINES = ['Plain text', 'another line', 'Zed :param a: b', 'x  spaced'
 BARE = ['a', 'b', 'x1', '_p_', 'Foo', 'bar_baz', 'é', 'v-1', '${v}', 'a\\;b', 'NAMEX', 'xEXPECTFAIL', 'name',
         'expectfail', '@V@', '<T>', 'a;b', '$<X:y>', '[x]', 'a\\ b', '\\"q', 'a\\"', '1', '-D', 'x=y', 'ı', 'p/q.r',
         '\\(', 'a\\#b', '$ENV{H}', 'args', 'self', 'COMMAND', 'ON', 'OFF', '_x_y', 'a]', ']', 'a[[b]]',
-        'ls\u2028ps\u2029', 'n\x85l', 'v\x0bt']
+        'ls\u2028ps\u2029', 'n\x85l', 'v\x0bt', '**kwargs', '*args', 'kwargs', '_tf_value_', '__x__']
 QUOTED = ['', 'q s', 'a\\"b', 'line\\\ncont', 'semi;colon', '#notcomment', '(paren)', 'é ✓', '$ENV{X}', ' ', 'x',
           'two\nlines', '\\\\', 'NAME', '[[x]]', 'a\\tb', 'u\u2028v', 'f\x0cf', '"'.replace('"', '\\"'), ')', '(']
 BRACKET = [(0, 'br'), (0, ' b ] r'), (1, 'b ]] r'), (2, ' ]=] '), (0, ''), (1, 'new\nline'), (0, '# "x" ('), (1, '[[n]]'),
            (0, 'a;b'), (3, '')]
+LONG_BARE = ['https://example.org/' + '/'.join('component%02d' % i for i in range(9)) + '/file.tar.gz',
+             '--enable-experimental-' + '-'.join(['feature', 'with', 'a', 'very', 'long', 'hyphenated', 'name', 'that', 'goes', 'on', 'and', 'on']),
+             '/opt/' + 'x' * 90]
+LONG_QUOTED = ['a long help text that keeps going ' * 4, 'word ' * 30 + 'end', 'https://example.org/' + 'p/' * 45,
+               'well-known-hyphenated-words-' * 5 + 'x']
 IDENTS = ['f', 'g', 'my_fn', 'Klass', 'T1', 'outer', 'inner', 'n2', 'Mod_x', '_u', 'NAME1']
 GENERIC_NAMES = ['message', 'add_library', 'include', 'list', 'find_package', 'if_not', 'target_sources', 'unset',
                  'cpp_end_classx', 'functionx', 'endfunctionx', 'return', 'SET_PROPERTY', 'process_docs']
@@ -46,7 +51,7 @@ class Gen:
     """layout: 0 canonical, 1 mild, 2 wild.  crlf: line endings.  profile: weights of item kinds."""
 
     def __init__(self, g, layout=1, crlf=False, p_doc=0.5, max_depth=3, max_items=6, malformed=0.0,
-                 weights=None, doc_lines=None, idents=None, lg=None, doc_blocks=None, p_gap=0.12, p_docimpl=0.0, p_dup=0.0):
+                 weights=None, doc_lines=None, idents=None, lg=None, doc_blocks=None, p_gap=0.12, p_docimpl=0.0, p_dup=0.0, p_stale=0.0):
         # g decides the module's content (its token sequence); lg decides only the layout, so the same content seed
         # with different layout seeds yields layout variants of one module
         self.g = g; self.lg = lg if lg is not None else g; self.layout = layout; self.crlf = crlf; self.p_doc = p_doc; self.max_depth = max_depth
@@ -54,9 +59,17 @@ class Gen:
         self.weights = weights or {}
         self.doc_lines = doc_lines or DOC_LINES
         self.doc_blocks = doc_blocks
-        self.p_gap = p_gap; self.p_docimpl = p_docimpl; self.p_dup = p_dup
+        self.p_gap = p_gap; self.p_docimpl = p_docimpl; self.p_dup = p_dup; self.p_stale = p_stale
         self.idents = idents or IDENTS
         self.n_items = 0
+        self.class_names = []       # names of the classes that are open where the next item is generated
+
+    def class_ref(self):
+        """the class an attribute/member says it belongs to: the enclosing one, an outer open one, or an unrelated name"""
+        g = self.g; r = g.random()
+        if self.class_names and r < 0.5: return self.class_names[-1]
+        if len(self.class_names) >= 2 and r < 0.85: return g.choice(self.class_names[:-1])
+        return self.ident()
 
     # ---- separators -------------------------------------------------------------------------------------
     def nl(self): return ['rn'] if self.crlf else ['n']
@@ -221,7 +234,15 @@ class Gen:
                     out.append(it)
                     out.append(dict(k='cmd', doc=self.doc(4 * depth, force=True), call=self.call('set', merged, 4 * depth, after_doc=True)))
                     continue
-            if isinstance(it, dict) and it['k'] == 'decl' and g.random() < self.p_gap:
+            if isinstance(it, dict) and it['k'] == 'decl' and self.p_stale and g.random() < self.p_stale:
+                # a declaration that is never implemented (a pure virtual member, a test whose function lives in another file):
+                # outside the structural theorems (known finding K8: the next definition anywhere later is taken for its
+                # implementation); correspondence, and for C01 the containment oracle
+                out.append(dict(k='cmd', doc=it['doc'], call=it['decl']))
+                if g.random() < 0.5:
+                    nm = singles(it['decl'])
+                    out.append(dict(k='cmd', doc=None, call=self.call('cpp_virtual_member', [self.tok(nm[0] if nm else 'x')], 4 * depth)))
+            elif isinstance(it, dict) and it['k'] == 'decl' and g.random() < self.p_gap:
                 out += self.split_decl(it, depth, in_class)
             elif isinstance(it, dict) and it['k'] == 'decl' and ((self.malformed and g.random() < self.malformed) or (self.p_docimpl and g.random() < self.p_docimpl)):
                 # outside the properties' quantifier (malformed stream, correspondence only): the implementing definition
@@ -284,10 +305,17 @@ class Gen:
             return it
         if k == 'set':
             toks = [self.tok(self.ident())] + [self.tok() for _ in range(g.choice([0, 1, 1, 1, 2, 3, 5]))]
+            if g.random() < 0.12:       # values longer than any line a renderer might want to fill
+                for j in range(1, len(toks)):
+                    if g.random() < 0.6: toks[j] = ['b', g.choice(LONG_BARE)] if g.random() < 0.5 else ['q', g.choice(LONG_QUOTED)]
+                if len(toks) == 1 or g.random() < 0.3: toks += [['b', g.choice(LONG_BARE)] for _ in range(g.randint(1, 12))]
             if mal and g.random() < 0.3: toks = []
             return dict(k='cmd', doc=d, call=self.call('set', toks, ind, cfirst, after_doc=d is not None))
         if k == 'option':
-            toks = [self.tok(self.ident()), self.tok(forms='q')] + ([self.tok(g.choice(['ON', 'OFF', '${dflt}']))] if g.random() < 0.5 else [])
+            dflt = g.choice([['b', 'ON'], ['b', 'OFF'], ['b', '${dflt}'], ['q', 'ON'], ['q', 'TRUE'], ['q', 'off'], ['b', 'Maybe'], ['b', '5'],
+                             ['k', 0, 'ON'], ['q', ''], ['q', '${dflt}'], ['b', 'x-NOTFOUND'], ['q', g.choice(LONG_QUOTED)]])
+            help_ = self.tok(forms='q') if g.random() < 0.9 else ['q', g.choice(LONG_QUOTED)]
+            toks = [self.tok(self.ident()), help_] + ([dflt] if g.random() < 0.5 else [])
             if mal: toks = toks[:g.choice([0, 1])] if g.random() < 0.5 else toks + [self.tok(), self.tok()]
             return dict(k='cmd', doc=d, call=self.call('option', toks, ind, cfirst, after_doc=d is not None))
         if k == 'add_test':
@@ -329,18 +357,22 @@ class Gen:
             toks = [self.tok('_p'), ['q', ''], ['q', ''], ['q', 'A;B'], self.tok('${ARGN}')]
             return dict(k='cmd', doc=None, call=self.call('cmake_parse_arguments', toks, ind, cfirst))
         if k == 'class':
-            toks = [self.tok(self.ident())] + [self.tok(self.ident()) for _ in range(g.randint(0, 2))]
+            cname_ = self.ident()
+            toks = [self.tok(cname_)] + [self.tok(self.ident()) for _ in range(g.randint(0, 2))]
             if mal and g.random() < 0.3: toks = []
+            self.class_names.append(cname_)
+            try: body = self.items(depth + 1, True, False, False)
+            finally: self.class_names.pop()
             return dict(k='block', doc=d, open=self.call('cpp_class', toks, ind, cfirst, after_doc=d is not None),
-                        body=self.items(depth + 1, True, False, False), close=self.call('cpp_end_class', [], ind))
+                        body=body, close=self.call('cpp_end_class', [], ind))
         if k == 'attr':
-            toks = [self.tok(self.ident()), self.tok(self.ident())] + ([self.tok()] if g.random() < 0.6 else [])
+            toks = [self.tok(self.class_ref()), self.tok(self.ident())] + ([self.tok()] if g.random() < 0.6 else [])
             if mal: toks = toks[:1]
             return dict(k='cmd', doc=d, call=self.call('cpp_attr', toks, ind, cfirst, after_doc=d is not None))
         if k in ('member', 'ctor'):
             cmd = 'cpp_member' if k == 'member' else 'cpp_constructor'
             nm = self.ident(); types = [self.tok(g.choice(['int', 'str', 'desc', 'args', 'bool', 'T*'])) for _ in range(g.randint(0, 3))]
-            toks = [self.tok(nm), self.tok(self.ident())] + types
+            toks = [self.tok(nm), self.tok(self.class_ref())] + types
             if mal and g.random() < 0.5: toks = toks[:1]
             impl = g.choice(['function', 'macro'])
             itoks = [['q', '${' + nm + '}'], self.tok('self')] + [self.tok(g.choice(['x1', '_m_a', 'b', 'args', '"q"', 'a;b'])) for _ in range(g.randint(0, 4))]
